@@ -4,6 +4,12 @@ from . import common
 from . import driver as D
 
 BOUNDS = {"quick": 24, "thorough": 48}
+DEEP = {"quick": 56, "thorough": 112}
+
+
+def full_box(tier):
+    N = BOUNDS[tier]
+    return D.box(N, tier) + D.box_deep(N, DEEP[tier], tier)
 
 RULES = {
     "C01": "configurations whose stream loads at least one checkpoint "
@@ -90,8 +96,9 @@ def sample_of(cfg):
 def check(prop, tier):
     res = common.Result(prop, tier)
     N = BOUNDS[tier]
-    cfgs = D.box(N, tier)
-    res.bounds = {"N_max": N, "configs": len(cfgs), "tier": tier,
+    cfgs = full_box(tier)
+    res.bounds = {"N_max": N, "N_deep_layer": DEEP[tier],
+                  "configs": len(cfgs), "tier": tier,
                   "passes_max": 3 if tier == "quick" else 5}
     out = merge_orders(D.run_box(cfgs, make_reducer(prop), orders=2))
     unbuilt = 0
